@@ -401,3 +401,34 @@ Fixpoint xrun (b : str) (stop : bool) (s : xst) (ops : list hop) : xst * list (b
    the overlay starts as a copy of the host's subtree at the base *)
 Definition xinit (b : str) (h : node) : xst :=
   mkX h (match node_at h (cc b) with Some n => n | None => NDir [] end).
+
+(* ---- DirFS(dir) on a root that already has content ------------------------------------------
+
+   The walk of DirFS enters every entry it finds into the overlay: a directory with
+   Mkdir, a symbolic link with Symlink(its target), anything else as a file — by the
+   kind the stat it uses reports.  [mirror follow h cur t]: the overlay image of the
+   subtree [t] found at [cur]; [follow] = the stat follows symbolic links (a link that
+   resolves to a directory is then entered as an EMPTY DIRECTORY, one that resolves to
+   a file as a file; a dangling one stays a link).  The code uses the DirEntry's own
+   lstat ([dirfs_mirror_stat]): [follow = false], and [xinit] is that image. *)
+Fixpoint mirror (follow : bool) (h : node) (cur : pos) (t : node) {struct t} : node :=
+  match t with
+  | NFile => NFile
+  | NLink x =>
+      if follow then
+        match kwalk kfuel h (removelast cur) [last cur []] true with
+        | KFound _ (NDir _) => NDir []
+        | KFound _ NFile => NFile
+        | _ => NLink x
+        end
+      else NLink x
+  | NDir ch =>
+      NDir ((fix go (l : list (str * node)) : list (str * node) :=
+               match l with
+               | [] => []
+               | kv :: r => (fst kv, mirror follow h (cur ++ [fst kv]) (snd kv)) :: go r
+               end) ch)
+  end.
+
+Definition xinit_stat (follow : bool) (b : str) (h : node) : xst :=
+  mkX h (match node_at h (cc b) with Some n => mirror follow h (cc b) n | None => NDir [] end).
